@@ -283,13 +283,28 @@ func (a *Analysis) lockDiscipline(rep *Report, g *guardedState, name string, fn 
 		}
 	}
 	var events []*Event
-	walkEvents(p.Events, func(e *Event, _ int) { events = append(events, e) })
+	inLoop := map[*Event]bool{}
+	var flat func(evs []*Event, loop bool)
+	flat = func(evs []*Event, loop bool) {
+		for _, e := range evs {
+			events = append(events, e)
+			inLoop[e] = loop
+			for _, arm := range e.Iter {
+				flat(arm.Events, loop || e.Kind == EvRep)
+			}
+		}
+	}
+	flat(p.Events, false)
 	for _, e := range events {
 		switch e.Kind {
 		case EvLock:
 			base, ok := fieldBase(e.Recv, g.Struct, g.MuField)
 			if !ok {
 				continue
+			}
+			if inLoop[e] && (e.Mode == "Lock" || e.Mode == "RLock") {
+				// a section per iteration (one lock per partition, say): the operation as a whole is not one atomic step
+				rep.Ob("Q3-single-critical-section", name+":loop", false, a.P.Pos(e.Pos), "the mutex is taken inside a loop: the operation consists of one critical section per iteration, and other operations can run between them")
 			}
 			switch e.Mode {
 			case "Lock":
